@@ -5,6 +5,7 @@ A mismatch means a source of nondeterminism escaped the simulator (exit 2)."""
 import os, sys, json, subprocess, time
 from concurrent.futures import ThreadPoolExecutor
 
+SCRATCH_BASE = "/dev/shm" if os.path.isdir("/dev/shm") and os.access("/dev/shm", os.W_OK) else __import__("tempfile").gettempdir()   # scratch only: nothing a later command needs
 VERIF = os.path.dirname(os.path.abspath(__file__))
 BUILD = os.environ.get("VERIF_BUILD", os.path.join(VERIF, "build"))
 WORKLOADS = [("asan_cm1_dm0", "w2", "", 60), ("asan_cm1_dm0", "w1", "", 24), ("asan_cm1_dm0", "w1", "C15", 12), ("asan_cm1_dm0", "wc", "", 24), ("asan_cm1_dm0", "w3", "", 40),
@@ -14,7 +15,7 @@ WORKLOADS = [("asan_cm1_dm0", "w2", "", 60), ("asan_cm1_dm0", "w1", "", 24), ("a
 
 def run(variant, wl, focus, a, b):
     cmd = [os.path.join(BUILD, variant, "simrun"), "--workload", wl, "--seeds", "%d:%d" % (a, b), "--no-minimize"] + (["--focus", focus] if focus else [])
-    env = dict(os.environ); env.setdefault("TMPDIR", "/dev/shm")
+    env = dict(os.environ); env.setdefault("TMPDIR", SCRATCH_BASE)
     p = subprocess.run(cmd, stdout=subprocess.PIPE, stderr=subprocess.DEVNULL, text=True, env=env)
     out = {}
     for line in p.stdout.splitlines():
